@@ -44,6 +44,51 @@ def field_name(i: int) -> str:
     return "f%d" % i
 
 
+def _spoil(attrs: list) -> None:
+    """The caller's list of attributes is the CALLER's: a type model object is a value and keeps no alias of it.  Every composite the
+    checks build is followed by this caller-side modification of the list that was handed to the constructor."""
+    attrs.reverse()
+    attrs.append(pydsdl.Field(pydsdl.BooleanType(), "intruder_appended_by_the_caller"))
+    if len(attrs) > 2:
+        del attrs[1]
+
+
+def spoil_accessors(t, depth: int = 0) -> None:
+    """Caller-side modification of every list a public accessor of a model object hands out, recursively through nested types."""
+    if depth > 6:
+        return
+    if isinstance(t, pydsdl.ServiceType):
+        spoil_accessors(t.request_type, depth + 1)
+        spoil_accessors(t.response_type, depth + 1)
+        return
+    if isinstance(t, pydsdl.ArrayType):
+        spoil_accessors(t.element_type, depth + 1)
+        return
+    if not isinstance(t, pydsdl.CompositeType):
+        return
+    nested = [a.data_type for a in t.attributes]
+    for obj in (t, t.inner_type):
+        for acc in ("attributes", "fields", "fields_except_padding", "constants", "name_components"):
+            v = getattr(obj, acc, None)
+            if isinstance(v, list):
+                v.reverse()
+                v.append(None)
+                if len(v) > 2:
+                    del v[1]
+    for n in nested:
+        spoil_accessors(n, depth + 1)
+
+
+# Types whose bit length sets DIFFER but agree in min, max and residues modulo 32 - the approximate BitLengthSet equality / hash cannot
+# tell them apart, so anything keyed by it (de-duplication, caches) confuses them.  Each group lists such types.
+COLLIDERS = [
+    [["varr", ["uint", 32, "s"], 2], ["varr", ["uint", 64, "s"], 1]],  # {8,40,72} / {8,72}
+    [["varr", ["uint", 32, "s"], 4], ["varr", ["uint", 64, "s"], 2], ["varr", ["farr", ["uint", 32, "s"], 4], 1]],  # {8,40,..,136} / {8,72,136} / {8,136}
+    [["struct", [["varr", ["uint", 32, "s"], 2], ["uint", 8, "s"]]], ["struct", [["varr", ["uint", 64, "s"], 1], ["uint", 8, "s"]]]],  # {16,48,80} / {16,80}
+    [["union", [["uint", 8, "s"], ["uint", 40, "s"], ["farr", ["uint", 8, "s"], 9]]], ["union", [["uint", 8, "s"], ["farr", ["uint", 8, "s"], 9]]]],  # {16,48,80} / {16,80}
+]
+
+
 def build_named(desc, name: str, version=(1, 0)) -> pydsdl.CompositeType:
     """A composite built under an explicitly given short name / version (used to make distinct types share a name)."""
     assert desc[0] in ("struct", "union", "delim")
@@ -63,6 +108,7 @@ def build_named(desc, name: str, version=(1, 0)) -> pydsdl.CompositeType:
         source_file_path=NS_DIR / ("%s.%d.%d.dsdl" % (name, version[0], version[1])),
         has_parent_service=False,
     )
+    _spoil(attrs)
     return pydsdl.DelimitedType(inner, desc[2]) if desc[0] == "delim" else inner
 
 
@@ -111,6 +157,7 @@ def build(desc, cache: dict | None = None) -> pydsdl.SerializableType:
             source_file_path=NS_DIR / ("%s.%d.%d.dsdl" % (name, ver[0], ver[1])),
             has_parent_service=False,
         )
+        _spoil(attrs)
     elif k == "delim":
         inner_desc = desc[1]
         # the inner object must carry the name of the delimited type itself
@@ -129,6 +176,7 @@ def build(desc, cache: dict | None = None) -> pydsdl.SerializableType:
             source_file_path=NS_DIR / ("%s.%d.%d.dsdl" % (name, ver[0], ver[1])),
             has_parent_service=False,
         )
+        _spoil(attrs)
         out = pydsdl.DelimitedType(inner, desc[2])
     else:
         raise ValueError(desc)
